@@ -5,6 +5,11 @@ ROOT = os.path.dirname(os.path.dirname(os.path.abspath(__file__)))
 
 TECH = "deterministic simulation with fault injection: "
 CHECKS = {
+ "C13": dict(
+   text="Seeded machine states (all registers, IFF2, IM, border, 128K latch incl. lock, every RAM byte, SP in screen memory / at the top of RAM) are saved as SNA through a faulty recorder (short writes, error or Ok(0) at the k-th call) and loaded back into the same emulator after more execution or into a fresh emulator in a seeded dirty state; checks: hash of registers + RAM + paging + clock identical before and after the save (also when the recorder fails), every SNA-carried item restored, lock behaviour, and a twin continuation in which the saved machine and the restored one must execute the following frames identically. Save/load at an arbitrary instant is the crash/restart analogue of this codebase. Sampling, not proof.",
+   note="48K: the two bytes below SP hold PC after a load (format property) and are masked/equalised; IFF1 := IFF2, MEMPTR, Q and the position inside the frame are equalised before the continuation because SNA cannot carry them.",
+   technique=TECH+"snapshot save through a fault-injecting recorder and reload into seeded dirty receivers, twin-machine continuation",
+   ref="5 (C13)"),
  "C14": dict(
    text="Seeded machine states encoded by independent SNA / SZX / SCR writers (chunk order permuted, pages stored or zlib-compressed, unknown chunks, optional AY/KEYB/AMXM/CRTR chunks) are loaded through chunking assets into seeded dirty receivers (halted, mid prefix chain, EI pending, paging locked on another bank, other border/IM/IFF, after a program ran, AY programmed) and into a fresh one: field-by-field state comparison, display vs RefScreen, identical continuation of dirty and fresh receiver, AY read-back and PCM against a twin programmed through the ports, joystick/mouse presence, SZX HALTED/EILAST behaviour, identical continuation of SNA / stored-SZX / zlib-SZX encodings of one state, and the model-mismatch matrix (Err or correct layout, never a panic). The load at an arbitrary instant into an arbitrary receiver is this technique's crash/restart analogue: only what the file carries survives. Sampling, not proof.",
    note="Writers follow the public format documents (DESIGN appendix E); what a format cannot carry is equalised before continuation; SZX HALTED accepted under either PC convention; AY PCM compared bit-exactly for fresh receivers only; SCR with the shadow screen displayed not asserted.",
